@@ -1244,6 +1244,99 @@ def rule_r15(prog, res):
                                                        t))
 
 
+# ------------------------------------------------------------------ R16
+def rule_r16(prog, res):
+    res.rule('R16', 'the fixed-width integer factories extend the validator '
+             'of the class they derive from (sibling agreement of '
+             'TBoundedInteger / TBoundedUnsignedInteger)')
+    n = 0
+    for c in prog.all_classes():
+        if not c.module.relpath.startswith('spyne/model/'):
+            continue
+        # the fixed-width factories only: hand-written types skip levels on
+        # purpose (Uuid's native type is not text; PositiveInteger's own test
+        # subsumes its parent's)
+        if not any(isinstance(fn, (ast.FunctionDef,)) and
+                   fn.name.startswith('TBounded') and c.node in ast.walk(fn)
+                   for fn in c.module.tree.body):
+            continue
+        bases = [unparse(b).split('.')[-1] for b in c.node.bases]
+        # Unicode(pattern=...)-style bases: the called class
+        bases += [call_name(b) for b in c.node.bases
+                  if isinstance(b, ast.Call)]
+        for nm in ('validate_native', 'validate_string'):
+            f = c.methods.get(nm)
+            if f is None:
+                continue
+            for call in calls_in(f.node):
+                if call_name(call) != nm or not isinstance(
+                        call.func, ast.Attribute) or not isinstance(
+                        call.func.value, ast.Name):
+                    continue
+                who = call.func.value.id
+                if who in ('cls', 'self', 'super'):
+                    continue
+                n += 1
+                ok = who in bases
+                where = '%s:%d' % (c.module.relpath, call.lineno)
+                res.ob('R16', where, '%s.%s chains to %s (bases: %s)' % (
+                    c.name, nm, who, bases), 'ok' if ok else 'VIOLATED')
+                if not ok:
+                    res.finding('R16', '%s.%s|chains-past-parent|%s' % (
+                        c.name, nm, who), where, '%s.%s calls %s.%s although '
+                        '%s extends %s: the checks the parent adds (sign, '
+                        'whole number, range, pattern) are skipped for this '
+                        'type, so values the parent rejects are accepted' % (
+                            c.name, nm, who, nm, c.name, bases))
+    res.floor('R16', 'validator chain calls in the fixed-width factories', n, 2)
+
+
+# ------------------------------------------------------------------ R17
+def rule_r17(prog, res):
+    res.rule('R17', 'the flat-document reader is handed the protocol\'s '
+             'validator for headers and body alike (argument bound to the '
+             'validator parameter, by name or position)')
+    c = prog.cls(SIMPLE)
+    g = c.methods.get('simple_dict_to_object')
+    if g is None:
+        raise AnalysisError('SimpleDictDocument.simple_dict_to_object',
+                            'not found')
+    ps = [p_ for p_ in g.params() if p_ != 'self']
+    if 'validator' not in ps:
+        raise AnalysisError('simple_dict_to_object', 'no validator parameter')
+    idx = ps.index('validator')
+    n = 0
+    for mod in prog.modules.values():
+        if not mod.relpath.startswith('spyne/protocol/'):
+            continue
+        for f in mod.functions.values():
+            for call in calls_in(f.node):
+                if call_name(call) != 'simple_dict_to_object' or \
+                        f.name == 'simple_dict_to_object':
+                    continue
+                n += 1
+                passed = None
+                for kw in call.keywords:
+                    if kw.arg == 'validator':
+                        passed = kw.value
+                if passed is None and idx < len(call.args):
+                    passed = call.args[idx]
+                txt = unparse(passed) if passed is not None else '<default>'
+                ok = passed is not None and txt.split('.')[-1] == 'validator'
+                where = '%s:%d' % (mod.relpath, call.lineno)
+                res.ob('R17', where, '%s: simple_dict_to_object(validator=%s)'
+                       % (f.qualname, txt), 'ok' if ok else 'VIOLATED')
+                if not ok:
+                    res.finding('R17', '%s|validator-argument|%s' % (
+                        f.qualname, txt[:30]), where, '%s binds %s to the '
+                        'validator parameter of simple_dict_to_object: every '
+                        '"validator is SOFT_VALIDATION" test is false for '
+                        'that object, so its values are parsed but never '
+                        'validated (length, pattern, range, occurrence)' % (
+                            f.qualname, txt))
+    res.floor('R17', 'calls of the flat-document reader', n, 2)
+
+
 def run(prog, res, tier):
     res.run_rule(rule_r1, prog, res)
     res.run_rule(rule_r2, prog, res)
@@ -1260,6 +1353,8 @@ def run(prog, res, tier):
     res.run_rule(rule_r13, prog, res)
     res.run_rule(rule_r14, prog, res)
     res.run_rule(rule_r15, prog, res)
+    res.run_rule(rule_r16, prog, res)
+    res.run_rule(rule_r17, prog, res)
 
 
 _X = 'spyne/protocol/xml.py'
@@ -1273,6 +1368,18 @@ _I = 'spyne/protocol/_inbase.py'
 _SI = 'spyne/protocol/dictdoc/simple.py'
 
 MUTANTS = [
+    Mutant('header-reader-arguments-shifted', 'R17', 'fire',
+           'spyne/protocol/http.py',
+           in_func('HttpRpc.deserialize',
+                   "in_header_class, self.validator, req_enc=req_enc)",
+                   "in_header_class, 'iso-8859-1', self.validator)"),
+           'validator-argument'),
+    Mutant('unsigned-bounded-chains-to-decimal', 'R16', 'fire',
+           'spyne/model/primitive/number.py',
+           in_func('TBoundedUnsignedInteger',
+                   "UnsignedInteger.validate_native(cls, value)",
+                   "Decimal.validate_native(cls, value)"),
+           'chains-past-parent'),
     Mutant('scalar-counts-once-per-key', 'R15', 'fire',
            'spyne/protocol/dictdoc/simple.py',
            in_func('SimpleDictDocument.simple_dict_to_object',
